@@ -141,6 +141,30 @@ impl HighestStoredBlockNumberGetter for FaultyStore {
     }
 }
 
+/// An empty database with all migrations applied, built once per process; new databases are byte copies of it
+/// (opening such a copy finds the migrations already applied), which saves a dozen synchronous transactions per database.
+pub fn create_empty_db(path: &Path) -> StdResult<()> {
+    static TEMPLATE: std::sync::OnceLock<std::path::PathBuf> = std::sync::OnceLock::new();
+    let template = TEMPLATE.get_or_init(|| {
+        let p = std::env::temp_dir().join(format!("vf-c13-template-{}.sqlite3", std::process::id()));
+        let _ = std::fs::create_dir_all(std::env::temp_dir());
+        let _ = std::fs::remove_file(&p);
+        let pool = ConnectionBuilder::open_file(&p)
+            .with_options(&[ConnectionOptions::EnableForeignKeys])
+            .with_migrations(mithril_persistence::database::cardano_transaction_migration::get_migrations())
+            .build_pool(1)
+            .expect("template database");
+        drop(pool);
+        p
+    });
+    std::fs::copy(template, path)?;
+    Ok(())
+}
+
+pub fn remove_template_db() {
+    let _ = std::fs::remove_file(std::env::temp_dir().join(format!("vf-c13-template-{}.sqlite3", std::process::id())));
+}
+
 #[derive(Clone, Debug)]
 pub struct StackCfg {
     pub max_per_poll: usize,
@@ -228,13 +252,24 @@ impl Sut {
     /// Merkle root the `CardanoTransactions` signable builder offers for signing at `beacon`
     /// (the builder calls `import(beacon)` first, exactly as in the signer)
     pub async fn ctx_root(&self, beacon: u64) -> StdResult<String> {
-        let msg = self.ctx_builder.compute_protocol_message(BlockNumber(beacon)).await?;
+        let msg = match self.ctx_builder.compute_protocol_message(BlockNumber(beacon)).await {
+            // the reader's time-out at the tip (the signer would retry on its next cycle with a new connection)
+            Err(e) if format!("{e:#}").contains(crate::simnode::TIMEOUT) => {
+                self.ctx_builder.compute_protocol_message(BlockNumber(beacon)).await?
+            }
+            r => r?,
+        };
         Ok(msg.get_message_part(&ProtocolMessagePartKey::CardanoTransactionsMerkleRoot).cloned().unwrap_or_default())
     }
 
     /// Merkle root the `CardanoBlocksTransactions` signable builder offers for signing at `beacon`
     pub async fn cbtx_root(&self, beacon: u64) -> StdResult<String> {
-        let msg = self.cbtx_builder.compute_protocol_message((BlockNumber(beacon), BlockNumberOffset(0))).await?;
+        let msg = match self.cbtx_builder.compute_protocol_message((BlockNumber(beacon), BlockNumberOffset(0))).await {
+            Err(e) if format!("{e:#}").contains(crate::simnode::TIMEOUT) => {
+                self.cbtx_builder.compute_protocol_message((BlockNumber(beacon), BlockNumberOffset(0))).await?
+            }
+            r => r?,
+        };
         Ok(msg
             .get_message_part(&ProtocolMessagePartKey::CardanoBlocksTransactionsMerkleRoot)
             .cloned()
